@@ -29,6 +29,9 @@ class Temps(object):
         if x in self.items:
             self.items.remove(x)
 
+    # (the real object is a set: discard is remove without KeyError)
+    discard = remove
+
 
 def _sf(h):
     vals = mk_values_s(h)
